@@ -1,0 +1,31 @@
+//go:build verif
+
+// Contracts for the deductive verifier /verif/govc (comment-only file; see /verif/CONTRACTS.md).
+package throttle
+
+/*@
+// C33 — the limit the block size estimate is compared with. C33's contracts treat GetCurrentMaxSize as one value that never
+// exceeds the configured maximum; what keeps that true is the history the throttle records: every entry remembers the limit
+// that was in force when its block was sent.
+struct blockSizeThrottle
+  guarded_by mutThrottler: statistics, currentMaxSize
+
+func NewBlockSizeThrottle(minSize uint32, maxSize uint32) (r *blockSizeThrottle, err error)
+  ensures  starts-at-the-maximum: err == nil && r != nil && r.currentMaxSize == maxSize && r.minSize == minSize && r.maxSize == maxSize && len(r.statistics) == 0
+
+func (bst *blockSizeThrottle) GetCurrentMaxSize() (r uint32)
+  ensures  reads-the-limit: r == bst.currentMaxSize
+  ensures  lock-released: !held(bst.mutThrottler) && !heldR(bst.mutThrottler)
+  assigns  nothing
+
+// Add records the block of this round with the size it had and the limit in force (not a value derived from the size)
+func (bst *blockSizeThrottle) Add(round uint64, size uint32)
+  requires history-entries-set: forall k :: 0 <= k && k < len(bst.statistics) ==> bst.statistics[k] != nil
+  ensures  recorded-last: len(bst.statistics) >= 1 && bst.statistics[len(bst.statistics)-1] != nil
+  ensures  records-the-round-and-size: bst.statistics[len(bst.statistics)-1].round == round && bst.statistics[len(bst.statistics)-1].size == size
+  ensures  records-the-limit-in-force: bst.statistics[len(bst.statistics)-1].currentMaxSize == old(bst.currentMaxSize)
+  ensures  not-yet-succeeded: !bst.statistics[len(bst.statistics)-1].succeed
+  ensures  limit-unchanged: bst.currentMaxSize == old(bst.currentMaxSize)
+  ensures  history-bounded: len(bst.statistics) <= 600 || len(bst.statistics) == old(len(bst.statistics)) + 1 - 100
+  ensures  lock-released: !held(bst.mutThrottler) && !heldR(bst.mutThrottler)
+@*/
